@@ -600,7 +600,7 @@ def _exec_step(W, st, model, log, stats, bump, seed):
                 model["opts_last"] = opts
     elif not fired and exc is not None:
         # the system failed although no fault was injected
-        tolerated = (not st["overwrite"]) and model["dirty"]
+        tolerated = False     # (until session 3 a plain run over the debris of an interrupted run was allowed to raise; the pinned tree never does)
         if not tolerated:
             where = ">".join((out.get("where") or [])[-2:])
             clause = "C04.S4" if (st["overwrite"] or fresh) else "C04.S3"
